@@ -48,75 +48,127 @@ def r145_frame(ctx, res):
             return bool(defs) and all(isinstance(d, ast.Assign) and is_unit_normal(d.value, depth + 1) for d in defs)
         return False
 
-    # the translation applied to the centre:  v1 * cos + v2 * sin
-    frame = []
+    # the translation applied to the centre:   A * cos(t) + B * sin(t)   (locals read as their definitions)
+    def factors(e):
+        """flatten a product into its factors"""
+        if isinstance(e, ast.BinOp) and isinstance(e.op, ast.Mult):
+            return factors(e.left) + factors(e.right)
+        return [e]
+
+    def is_trig(e):
+        return isinstance(e, ast.Call) and txt(e.func) in ("math.cos", "math.sin", "cos", "sin")
+
+    def is_vectorish(e, _seen=()):
+        """a frame-vector factor: a local / a cross product / a normalised vector (scalars here are numbers, the radius
+        parameter and the trigonometric functions)"""
+        core = _strip_norm(e)
+        if isinstance(core, ast.Call) and isinstance(core.func, ast.Attribute) and core.func.attr in ("cross",):
+            return True
+        if isinstance(e, ast.Call) and isinstance(e.func, ast.Attribute) and e.func.attr in ("normalized", "unit"):
+            return True
+        if isinstance(e, ast.Name) and e.id in asg and e.id not in fi.params and e.id not in _seen:
+            seen2 = _seen + (e.id,)
+            return any(isinstance(d, ast.Assign) and (is_vectorish(d.value, seen2) or (
+                isinstance(d.value, ast.BinOp) and any(is_vectorish(x, seen2) for x in factors(d.value)))) for d in asg[e.id])
+        return False
+
+    sides = None
+    move_call = None
     for c in walk_local(fi.node):
         if not (isinstance(c, ast.Call) and isinstance(c.func, ast.Attribute) and c.func.attr == "move" and c.args):
             continue
         arg0 = expand_locals(fi.node, c.args[0], fi.params)
         if isinstance(arg0, ast.BinOp) and isinstance(arg0.op, ast.Add):
-            for side in (arg0.left, arg0.right):
-                if isinstance(side, ast.BinOp) and isinstance(side.op, ast.Mult):
-                    for x in (side.left, side.right):
-                        if isinstance(x, ast.Name) and x.id in asg:
-                            frame.append(x.id)
-    if len(frame) != 2:
+            fs = [factors(arg0.left), factors(arg0.right)]
+            if all(any(is_trig(x) for x in f_) for f_ in fs):
+                sides, move_call = fs, c
+    if sides is None:
         raise AnalysisError("%s: the circle's frame vectors could not be identified" % fi.where())
-    info = {}
-    for f in frame:
-        crosses, scales, other = [], [], []
-        for d in asg[f]:
-            if not isinstance(d, ast.Assign):
+    frame = []  # [(vector factor AST, sorted scalar factor texts)]
+    for f_ in sides:
+        vecs = [x for x in f_ if is_vectorish(x)]
+        scal = sorted(txt(x) for x in f_ if not is_vectorish(x) and not is_trig(x))
+        if len(vecs) != 1:
+            raise AnalysisError("%s: the circle's frame vectors could not be identified (`%s`)" % (fi.where(move_call), txt(move_call.args[0])[:60]))
+        frame.append((vecs[0], scal))
+
+    def defs_of(e):
+        """[(definition statement or None, value expr)] -- every reaching definition of a local, or the expression itself;
+        re-scalings `f = f * r` are returned separately"""
+        if isinstance(e, ast.Name) and e.id in asg and e.id not in fi.params:
+            out, scales = [], []
+            for d in asg[e.id]:
+                if not isinstance(d, ast.Assign):
+                    out.append((d, None))
+                    continue
+                v = d.value
+                if isinstance(v, ast.BinOp) and isinstance(v.op, ast.Mult) and any(isinstance(x, ast.Name) and x.id == e.id for x in (v.left, v.right)):
+                    scales.append(txt([x for x in (v.left, v.right) if not (isinstance(x, ast.Name) and x.id == e.id)][0]))
+                    continue
+                out.append((d, v))
+            return out, scales
+        return [(None, e)], []
+
+    info = []
+    for vec, scal in frame:
+        ds, scales = defs_of(vec)
+        crosses, other = [], []
+        for d, v in ds:
+            if v is None:
                 other.append(d)
-                continue
-            v = d.value
-            if isinstance(v, ast.BinOp) and isinstance(v.op, ast.Mult) and any(isinstance(x, ast.Name) and x.id == f for x in (v.left, v.right)):
-                scales.append(txt([x for x in (v.left, v.right) if not (isinstance(x, ast.Name) and x.id == f)][0]))
                 continue
             normed = isinstance(v, ast.Call) and isinstance(v.func, ast.Attribute) and v.func.attr in ("normalized", "unit")
             core = _strip_norm(v)
+            if isinstance(core, ast.Name) and core.id in asg and core.id not in fi.params and len(asg[core.id]) == 1 \
+                    and isinstance(asg[core.id][0], ast.Assign):
+                core = _strip_norm(asg[core.id][0].value)
             if isinstance(core, ast.Call) and isinstance(core.func, ast.Attribute) and core.func.attr == "cross" and len(core.args) == 1:
-                crosses.append((d, core.func.value, core.args[0], normed))
+                crosses.append((d if d is not None else move_call, v, core.func.value, core.args[0], normed))
             else:
-                other.append(d)
-        info[f] = (crosses, scales, other)
-    for f in frame:
-        crosses, scales, other = info[f]
-        for d in other:
+                other.append(d if d is not None else move_call)
+        info.append({"name": txt(vec)[:30], "crosses": crosses, "other": other, "scales": sorted(scal + scales)})
+    for it_ in info:
+        f = it_["name"]
+        for d in it_["other"]:
             res.ob("R14.5", fi.where(d), "frame vector %s: `%s`" % (f, txt(d)[:50]), False, "not a cross product with the normal")
             res.violation("R14.5", fi, d,
                           "the circle's frame vector `%s` is set by `%s`, which is not perpendicular to the normal by construction: for "
                           "normals that are close to but not exactly along the axis the vertices leave the circle's plane" % (f, txt(d)[:60]),
                           construct="get_circle_point_list: frame vector %s = %s" % (f, txt(d.value)[:50] if isinstance(d, ast.Assign) else "?"))
-        for d, X, Y, normed in crosses:
+        for d, v, X, Y, normed in it_["crosses"]:
             ok = canon_is_normal(X) or canon_is_normal(Y)
-            res.ob("R14.5", fi.where(d), "frame vector %s: `%s`" % (f, txt(d.value)[:50]), ok,
+            res.ob("R14.5", fi.where(d), "frame vector %s: `%s`" % (f, txt(v)[:50]), ok,
                    "a cross product with the normal as a factor (perpendicular to it for every input)" if ok else "the normal is not a factor")
             if not ok:
                 res.violation("R14.5", fi, d, "the circle's frame vector `%s = %s` is not a cross product with the normal: it need not lie "
-                              "in the circle's plane" % (f, txt(d.value)[:60]), construct="get_circle_point_list: frame vector %s cross" % f)
+                              "in the circle's plane" % (f, txt(v)[:60]), construct="get_circle_point_list: frame vector %s cross" % f)
     # mutual perpendicularity and equal length
-    a, b = frame
-    mutual = any(txt(_strip_norm(Y)) == a or txt(_strip_norm(X)) == a for _, X, Y, _ in info[b][0]) or \
-        any(txt(_strip_norm(Y)) == b or txt(_strip_norm(X)) == b for _, X, Y, _ in info[a][0])
+    A, B = info
+    na, nb = txt(frame[0][0]), txt(frame[1][0])
+    mutual = any(txt(_strip_norm(Y)) == na or txt(_strip_norm(X)) == na for _, _, X, Y, _ in B["crosses"]) or \
+        any(txt(_strip_norm(Y)) == nb or txt(_strip_norm(X)) == nb for _, _, X, Y, _ in A["crosses"])
     unit_ok = True
-    for f, g_ in ((a, b), (b, a)):
-        for d, X, Y, normed in info[f][0]:
+    for it_, other_name in ((A, nb), (B, na)):
+        for d, v, X, Y, normed in it_["crosses"]:
             if normed:
                 continue
             # un-normalised cross product: unit only if both factors are unit and perpendicular: unit normal x other frame vector
             facs = [X, Y]
-            if not (any(is_unit_normal(z) for z in facs) and any(txt(_strip_norm(z)) == g_ for z in facs)):
+            if not (any(is_unit_normal(z) for z in facs) and any(txt(_strip_norm(z)) == other_name for z in facs)):
                 unit_ok = False
-    same_scale = sorted(info[a][1]) == sorted(info[b][1])
+    # (the un-normalised one inherits unit length from the other only if every definition of the other is normalised)
+    for it_, other in ((A, B), (B, A)):
+        if any(not normed for _, _, _, _, normed in it_["crosses"]) and any(not normed for _, _, _, _, normed in other["crosses"]):
+            unit_ok = False
+    same_scale = A["scales"] == B["scales"]
     ok = mutual and unit_ok and same_scale
     res.ob("R14.5", fi.where(), "frame vectors are perpendicular to each other and of equal length", ok,
-           "one is the cross product of the unit normal with the other; both scaled by %s" % (info[a][1] or "1") if ok else
-           "mutual: %s, unit: %s, scales %s / %s" % (mutual, unit_ok, info[a][1], info[b][1]))
+           "one is the cross product of the unit normal with the other; both scaled by %s" % (A["scales"] or "1") if ok else
+           "mutual: %s, unit: %s, scales %s / %s" % (mutual, unit_ok, A["scales"], B["scales"]))
     if not ok:
         res.violation("R14.5", fi, fi.node, "the circle's frame is not orthogonal with equal lengths by construction (mutually "
                       "perpendicular: %s, unit before scaling: %s, scale factors %s vs %s): the vertices would lie on an ellipse" % (
-                          mutual, unit_ok, info[a][1], info[b][1]), construct="get_circle_point_list: frame orthonormality")
+                          mutual, unit_ok, A["scales"], B["scales"]), construct="get_circle_point_list: frame orthonormality")
 
 
 def r146_rings_agree(ctx, res):
@@ -182,7 +234,7 @@ def r146_rings_agree(ctx, res):
         if not caps:
             # caps built directly from the rings (ConvexPolygon(ring)): nothing to compare, they share the ring by construction
             res.note("%s %s requests no separate Circle(...) cap; caps and side faces can only share the rings it builds" % (fi.where(), short))
-            n += len(rings)
+            n += max(len(rings), 1)
             continue
         if not rings:
             res.note("%s %s takes its side-face vertices from the caps themselves (no separate ring)" % (fi.where(), short))
@@ -204,7 +256,7 @@ def r146_rings_agree(ctx, res):
                 res.ob("R14.6", fi.where(c), "%s: cap %s" % (short, key), False, "no side-face ring with these arguments; rings: %s" % sorted(rings))
                 res.violation("R14.6", fi, c, "%s builds the cap Circle%s but the side faces use the ring(s) %s: the cap's vertices are "
                               "not the side faces' vertices" % (short, key, sorted(rings)), construct="%s: cap %s without matching ring" % (short, key))
-    ctx.require(res, "R14.6", n, 3, "vertex rings of Cylinder / Cone")
+    ctx.require(res, "R14.6", n, 2, "vertex rings of Cylinder / Cone (or builders that make their own rings)")
 
 
 def r147_orientation_free_guards(ctx, res):
